@@ -1118,13 +1118,10 @@ func checkRegistration(r *Report, p *Prog) {
 	}
 	regionFields := func(typ, field string) []fieldStore {
 		var out []fieldStore
-		seen := map[*ssa.Store]bool{}
 		for _, c := range rg.all {
+			// (a builder helper called twice is two activations: the same store, with different arguments)
 			for _, st := range litFields(c.fn, modPath, typ)[field] {
-				if !seen[st] {
-					seen[st] = true
-					out = append(out, fieldStore{st, c})
-				}
+				out = append(out, fieldStore{st, c})
 			}
 		}
 		return out
@@ -1150,8 +1147,23 @@ func checkRegistration(r *Report, p *Prog) {
 	r.Check(okACS, rule, "metadata offers an HTTP-POST assertion consumer service at the recipient the SP insists on", p.Pos(md.Pos()), strings.Join(seen, "; "), fmt.Sprintf("published endpoints %v, expected an HTTP-POST endpoint at %v", seen, rcptWant))
 	// the encryption key descriptor carries the SP certificate
 	okEnc := false
+	useOf := func(fs fieldStore) string {
+		if s, ok := constStr(fs.st.Val); ok {
+			return s
+		}
+		// a builder helper that is told the use
+		out := ""
+		for _, o := range rg.Origins(RV{V: fs.st.Val, C: fs.c}) {
+			if s, ok := constStr(o.V); ok {
+				out = s
+			} else {
+				return ""
+			}
+		}
+		return out
+	}
 	for _, fs := range regionFields("KeyDescriptor", "Use") {
-		if s, _ := constStr(fs.st.Val); s == "encryption" {
+		if useOf(fs) == "encryption" {
 			okEnc = true
 		}
 	}
@@ -1182,7 +1194,7 @@ func checkRegistration(r *Report, p *Prog) {
 	if needRSA {
 		for _, fs := range regionFields("KeyDescriptor", "Use") {
 			st := fs.st
-			if s, _ := constStr(st.Val); s != "encryption" {
+			if useOf(fs) != "encryption" {
 				continue
 			}
 			guarded := false
